@@ -140,3 +140,207 @@ def hd_filldup(c, a):
         if c.L.Hdupdd(fid, a["tag"], r, a["otag"], a["oref"]) == FAIL:
             return {"ret": FAIL, "at": r}
     return {"ret": 0}
+
+
+# ------------------------------------------------------------------ HElem (C01)
+ETAG = 200
+_libc = ctypes.CDLL(None)
+_libc.malloc.restype = ctypes.c_void_p
+_libc.malloc.argtypes = [ctypes.c_size_t]
+_libc.free.argtypes = [ctypes.c_void_p]
+
+
+class CBuf:
+    """exact-size heap buffer from the (ASan-intercepted) C allocator: an overrun by the library is caught"""
+    def __init__(self, n):
+        self.n = n
+        self.p = _libc.malloc(max(n, 1))
+        ctypes.memset(self.p, 0xEE, max(n, 1))
+
+    def bytes(self, m):
+        return ctypes.string_at(self.p, m) if m > 0 else b""
+
+    def free(self):
+        _libc.free(self.p)
+
+
+def he_info(c, aid):
+    ln, pos = c_int32(-9), c_int32(-9)
+    r = c.L.Hinquire(aid, None, None, None, byref(ln), None, byref(pos), None, None)
+    return (ln.value if r != FAIL else -9), c.L.Htell(aid)
+
+
+def he_rep(c, aid, ret):
+    ln, pos = he_info(c, aid)
+    return {"ret": ret, "posn": pos, "len": ln}
+
+
+@teardown("HElem")
+def he_teardown(c):
+    for k in [k for k in c.h if k != "F"]:
+        c.L.Hendaccess(c.h[k])
+    if c.h.get("F", FAIL) != FAIL:
+        c.L.Hclose(c.h["F"])
+
+
+@op("HElem", "Create")
+def he_create(c, a):
+    fid = c.L.Hopen(c.path(), DFACC_CREATE, a["ndds"])
+    c.h["F"] = fid
+    c.v["nkeys"] = a.get("nkeys", 2)
+    c.v["bump"] = 0
+    if fid != FAIL:
+        c.L.Hcache(fid, 1 if a["cache"] else 0)
+    return {"ret": 0 if fid != FAIL else FAIL}
+
+
+def he_started(c, a, aid):
+    if aid == FAIL:
+        return {"ret": FAIL}
+    c.h[a["aid"]] = aid
+    return he_rep(c, aid, 0)
+
+
+@op("HElem", "StartWrite")
+def he_startwrite(c, a):
+    return he_started(c, a, c.L.Hstartwrite(c.h["F"], ETAG, a["key"], a["n"]))
+
+
+@op("HElem", "StartAccess")
+def he_startaccess(c, a):
+    if a["w"]:
+        aid = c.L.Hstartaccess(c.h["F"], ETAG, a["key"], DFACC_RDWR | (DFACC_APPENDABLE if a["app"] else 0))
+    else:
+        aid = c.L.Hstartread(c.h["F"], ETAG, a["key"])
+    return he_started(c, a, aid)
+
+
+@op("HElem", "StartRead")
+def he_startread(c, a):
+    return he_started(c, a, c.L.Hstartread(c.h["F"], ETAG, a["key"]))
+
+
+@op("HElem", "CreateLinked")
+def he_createlinked(c, a):
+    return he_started(c, a, c.L.HLcreate(c.h["F"], ETAG, a["key"], a["blk"], a["nblk"]))
+
+
+@op("HElem", "CreateExt")
+def he_createext(c, a):
+    return he_started(c, a, c.L.HXcreate(c.h["F"], ETAG, a["key"], ("ext_%d.dat" % a["key"]).encode(), 0, 0))
+
+
+@op("HElem", "Convert")
+def he_convert(c, a):
+    aid = c.h[a["aid"]]
+    return he_rep(c, aid, c.L.HLconvert(aid, a["blk"], a["nblk"]))
+
+
+@op("HElem", "Appendable")
+def he_appendable(c, a):
+    return {"ret": c.L.Happendable(c.h[a["aid"]])}
+
+
+@op("HElem", "Write")
+def he_write(c, a):
+    aid = c.h[a["aid"]]
+    d = bytes(a["data"])
+    b = CBuf(len(d))
+    ctypes.memmove(b.p, d, len(d))
+    r = c.L.Hwrite(aid, len(d), ctypes.cast(b.p, ctypes.c_char_p))
+    b.free()
+    return he_rep(c, aid, r)
+
+
+@op("HElem", "Seek")
+def he_seek(c, a):
+    aid = c.h[a["aid"]]
+    r = c.L.Hseek(aid, a["off"], DF_START)
+    return {"ret": r, "posn": c.L.Htell(aid)}
+
+
+@op("HElem", "Read")
+def he_read(c, a):
+    aid = c.h[a["aid"]]
+    ln, pos = he_info(c, aid)
+    n = a["n"]
+    # the caller's buffer is exactly as large as the API contract requires: n bytes, or "to the end"
+    need = n if n > 0 else max(ln - pos, 0)
+    b = CBuf(need)
+    r = c.L.Hread(aid, n, ctypes.cast(b.p, ctypes.c_char_p))
+    data = list(b.bytes(min(r, need))) if r > 0 else []
+    b.free()
+    o = he_rep(c, aid, r)
+    o["data"] = data
+    return o
+
+
+@op("HElem", "Trunc")
+def he_trunc(c, a):
+    aid = c.h[a["aid"]]
+    return he_rep(c, aid, c.L.Htrunc(aid, a["n"]))
+
+
+@op("HElem", "EndAccess")
+def he_endaccess(c, a):
+    r = c.L.Hendaccess(c.h.pop(a["aid"]))
+    return {"ret": r}
+
+
+@op("HElem", "Dup")
+def he_dup(c, a):
+    r = c.L.Hdupdd(c.h["F"], ETAG, a["key"], ETAG, a["okey"])
+    return {"ret": r, "len": c.L.Hlength(c.h["F"], ETAG, a["key"])}
+
+
+@op("HElem", "Del")
+def he_del(c, a):
+    return {"ret": c.L.Hdeldd(c.h["F"], ETAG, a["key"])}
+
+
+@op("HElem", "Bump")
+def he_bump(c, a):
+    c.v["bump"] += 1
+    r = c.L.Hputelement(c.h["F"], 300, c.v["bump"], b"\x07", 1)
+    return {"ret": 0 if r == 1 else FAIL}
+
+
+@op("HElem", "Get")
+def he_get(c, a):
+    ln = c.L.Hlength(c.h["F"], ETAG, a["key"])
+    b = CBuf(max(ln, 0))
+    r = c.L.Hgetelement(c.h["F"], ETAG, a["key"], ctypes.cast(b.p, ctypes.c_char_p))
+    data = list(b.bytes(min(r, max(ln, 0)))) if r > 0 else []
+    b.free()
+    return {"ret": r, "data": data}
+
+
+@op("HElem", "CloseBusy")
+def he_closebusy(c, a):
+    r = c.L.Hclose(c.h["F"])
+    if r != FAIL:
+        c.h["F"] = FAIL
+    return {"ret": r}
+
+
+@op("HElem", "Reopen")
+def he_reopen(c, a):
+    r = c.L.Hclose(c.h["F"])
+    if r == FAIL:
+        return {"ret": FAIL}
+    fid = c.L.Hopen(c.path(), DFACC_RDWR, 0)
+    c.h["F"] = fid
+    if fid == FAIL:
+        return {"ret": FAIL}
+    c.L.Hcache(fid, 1 if a["cache"] else 0)
+    return {"ret": 0, "lens": [c.L.Hlength(fid, ETAG, k) for k in range(1, c.v["nkeys"] + 1)]}
+
+
+@op("HElem", "ReadPast")
+def he_readpast(c, a):
+    aid = c.h[a["aid"]]
+    n = a["n"]
+    b = CBuf(max(n, 1))
+    r = c.L.Hread(aid, n, ctypes.cast(b.p, ctypes.c_char_p))
+    b.free()
+    return {"ret": r, "posn": c.L.Htell(aid)}
